@@ -1,24 +1,232 @@
-//! Fake sequencer CometBFT JSON-RPC client (stub for first build).
+//! Fake sequencer CometBFT JSON-RPC endpoint.
+//!
+//! `SimClient` implements `tendermint_rpc::Client::perform`: the request is serialised to its
+//! JSON-RPC form, method and height are read from it (the random request id is ignored and never
+//! logged), the simulator decides latency / error / answer from the scenario, sleeps on the paused
+//! tokio clock and answers with a JSON-RPC document that goes through the ordinary
+//! `Response::from_string` decoding of tendermint-rpc.
+
+use std::{
+    collections::BTreeMap,
+    sync::{
+        Arc,
+        Mutex,
+    },
+    time::Duration,
+};
+
 use sequencer_client::tendermint_rpc::{
     self,
+    request::RequestMessage as _,
+    Response as _,
     SimpleRequest,
 };
 
+use super::common::{
+    Rng,
+    Stats,
+    Trace,
+};
+
+#[derive(Clone, Debug, Default)]
+pub(crate) struct FaultPlan {
+    /// first n requests fail with a retryable timeout
+    pub retry_timeout: u32,
+    /// first n requests fail with a retryable HTTP status
+    pub retry_http: u32,
+    /// request numbers (0-based) that fail with a non-retryable error
+    pub fatal_at: Vec<u32>,
+    pub slow_ms: u64,
+}
+
+#[derive(Default)]
+pub(crate) struct Net {
+    pub seed: u64,
+    pub lat_max_ms: u64,
+    /// (method, height) -> JSON-RPC response document
+    pub answers: BTreeMap<(u8, u64), String>,
+    /// (method, height) -> fault plan
+    pub faults: BTreeMap<(u8, u64), FaultPlan>,
+    /// (method, height) -> number of requests seen
+    pub seen: BTreeMap<(u8, u64), u32>,
+    /// heights for which a non-retryable error was returned
+    pub fatal_fired: Vec<u64>,
+    pub highest_height: u64,
+    pub trace: Trace,
+    pub stats: Stats,
+    pub started: Option<tokio::time::Instant>,
+    pub requests: u64,
+}
+
+impl Net {
+    pub fn now_ms(&self) -> u64 {
+        self.started
+            .map(|s| (tokio::time::Instant::now() - s).as_millis() as u64)
+            .unwrap_or(0)
+    }
+
+    pub fn ev(&mut self, line: &str) {
+        let t = self.now_ms();
+        self.trace.ev(&format!("t={t} {line}"));
+    }
+}
+
 #[derive(Clone)]
-pub(crate) struct SimClient;
+pub(crate) struct SimClient {
+    net: Option<Arc<Mutex<Net>>>,
+}
+
+enum Decision {
+    Answer(String),
+    RetryTimeout,
+    RetryHttp,
+    Fatal,
+    UnknownHeight(u64),
+    UnknownMethod(String),
+}
 
 impl SimClient {
+    /// Used only by the hook in `RunningReader::from_parts` so that the crate compiles in the
+    /// harness build; a client made this way answers every request with an error.
     pub(crate) fn from_http(_client: sequencer_client::HttpClient) -> Self {
-        SimClient
+        SimClient {
+            net: None,
+        }
+    }
+
+    pub(crate) fn new(net: Arc<Mutex<Net>>) -> Self {
+        SimClient {
+            net: Some(net),
+        }
+    }
+}
+
+fn method_code(name: &str) -> Option<u8> {
+    match name {
+        "commit" => Some(0),
+        "validators" => Some(1),
+        _ => None,
     }
 }
 
 #[async_trait::async_trait]
 impl tendermint_rpc::Client for SimClient {
-    async fn perform<R>(&self, _request: R) -> Result<R::Output, tendermint_rpc::Error>
+    async fn perform<R>(&self, request: R) -> Result<R::Output, tendermint_rpc::Error>
     where
         R: SimpleRequest,
     {
-        Err(tendermint_rpc::Error::server("no simulation attached".to_string()))
+        let Some(net) = self.net.clone() else {
+            return Err(tendermint_rpc::Error::server(
+                "no simulation attached".to_string(),
+            ));
+        };
+        let method_name = request.method().to_string();
+        let json: serde_json::Value =
+            serde_json::from_str(&request.into_json()).expect("request serialises to JSON");
+        let height: u64 = json["params"]["height"]
+            .as_str()
+            .and_then(|s| s.parse().ok())
+            .or_else(|| json["params"]["height"].as_u64())
+            .unwrap_or(0);
+
+        let (decision, latency_ms) = {
+            let mut n = net.lock().unwrap();
+            n.requests += 1;
+            let Some(m) = method_code(&method_name) else {
+                n.ev(&format!("rpc {method_name} -> unknown-method"));
+                return Err(tendermint_rpc::Error::method_not_found(method_name));
+            };
+            let k = {
+                let e = n.seen.entry((m, height)).or_default();
+                let k = *e;
+                *e += 1;
+                k
+            };
+            let plan = n.faults.get(&(m, height)).cloned().unwrap_or_default();
+            let mut lat = if n.lat_max_ms > 0 {
+                Rng::new(n.seed)
+                    .fork(0x9000_0000 ^ (u64::from(m) << 56) ^ (height << 8) ^ u64::from(k))
+                    .range(0, n.lat_max_ms)
+            } else {
+                0
+            };
+            lat += plan.slow_ms;
+            if plan.slow_ms > 0 {
+                n.stats.fault("rpc.slow");
+            }
+            let decision = if !n.answers.contains_key(&(m, height)) {
+                Decision::UnknownHeight(n.highest_height)
+            } else if plan.fatal_at.contains(&k) {
+                Decision::Fatal
+            } else if k < plan.retry_timeout {
+                Decision::RetryTimeout
+            } else if k < plan.retry_timeout + plan.retry_http {
+                Decision::RetryHttp
+            } else {
+                Decision::Answer(n.answers[&(m, height)].clone())
+            };
+            let what = match &decision {
+                Decision::Answer(_) => "answer",
+                Decision::RetryTimeout => {
+                    n.stats.fault("rpc.retryable-timeout");
+                    // a timeout takes its time
+                    lat += 5_000;
+                    "retryable-timeout"
+                }
+                Decision::RetryHttp => {
+                    n.stats.fault("rpc.retryable-http-status");
+                    "retryable-http"
+                }
+                Decision::Fatal => {
+                    n.stats.fault("rpc.fatal-error");
+                    n.fatal_fired.push(height);
+                    "fatal"
+                }
+                Decision::UnknownHeight(_) => {
+                    n.stats.probe("rpc.unknown-height");
+                    "unknown-height"
+                }
+                Decision::UnknownMethod(_) => "unknown-method",
+            };
+            if lat > 0 {
+                n.stats.fault("rpc.latency");
+            }
+            n.ev(&format!("rpc {method_name} h={height} k={k} -> {what} lat={lat}"));
+            (decision, lat)
+        };
+        if latency_ms > 0 {
+            tokio::time::sleep(Duration::from_millis(latency_ms)).await;
+        }
+        {
+            let mut n = net.lock().unwrap();
+            n.ev(&format!("rpc-done {method_name} h={height}"));
+        }
+        match decision {
+            Decision::Answer(doc) => R::Response::from_string(doc).map(Into::into),
+            Decision::RetryTimeout => Err(tendermint_rpc::Error::timeout(Duration::from_secs(5))),
+            // the status type (http 0.2 via reqwest) cannot be named from this crate; infer it
+            Decision::RetryHttp => Err(tendermint_rpc::Error::http_request_failed(
+                502u16.try_into().expect("valid status"),
+            )),
+            Decision::Fatal => Err(tendermint_rpc::Error::server(
+                "injected non-retryable failure".to_string(),
+            )),
+            Decision::UnknownHeight(cur) => {
+                let doc = serde_json::json!({
+                    "jsonrpc": "2.0",
+                    "id": 0,
+                    "error": {
+                        "code": -32603,
+                        "message": "Internal error",
+                        "data": format!(
+                            "height {height} must be less than or equal to the current blockchain height {cur}"
+                        ),
+                    }
+                })
+                .to_string();
+                R::Response::from_string(doc).map(Into::into)
+            }
+            Decision::UnknownMethod(m) => Err(tendermint_rpc::Error::method_not_found(m)),
+        }
     }
 }
